@@ -121,6 +121,8 @@ pub enum Pair {
   EqPath(u8, u8),
   PathP(Ck, Result<u8, u8>, Result<u8, u8>),
   EqSet(Vec<u8>, Vec<u8>),
+  /// The single value of the zero-sized `Result<(), Infallible>` against itself.
+  Inf(Ck),
   /// A grab bag of further output types for EqualsChecker / AlwaysConsistent and, wrapped in Result, the other checkers:
   /// selector 0 i128 differing only above bit 64, 1 nested options, 2 Rc<u8>, 3 empty array, 4 &'static str, 5 char,
   /// 6 (u64, u64), 7 Option<Result<u8, ()>>.
@@ -158,6 +160,7 @@ pub fn check(p: &Pair, stats: &mut Stats) -> CheckResult {
     Pair::EqPath(a, b) => { stats.class("std_type_with_non_bytewise_equality"); (judge_equals(&path(*a), &path(*b)), true) }
     Pair::PathP(c, a, b) => { stats.class("std_type_with_non_bytewise_equality"); (judge_result(*c, &path_res(a), &path_res(b)), true) }
     Pair::EqSet(a, b) => { stats.class("std_type_with_non_bytewise_equality"); (judge_equals(&hset(a), &hset(b)), true) }
+    Pair::Inf(c) => { stats.class("zero_sized_result_type"); let v: Result<(), std::convert::Infallible> = Ok(()); (judge_result(*c, &v, &v), false) }
     Pair::Misc(c, sel, a, b) => { stats.class("misc_output_type"); (misc(*c, *sel, *a, *b), a != b) }
     Pair::TerseP(c, a, b) => { stats.class("payload_whose_debug_text_and_eq_disagree"); (judge_result(*c, a, b), true) }
     Pair::LooseP(c, a, b) => { stats.class("payload_whose_debug_text_and_eq_disagree"); (judge_result(*c, a, b), true) }
@@ -188,6 +191,7 @@ pub fn check(p: &Pair, stats: &mut Stats) -> CheckResult {
     Pair::EqPath(a, _) => judge_equals(&path(*a), &path(*a)),
     Pair::PathP(c, a, _) => judge_result(*c, &path_res(a), &path_res(a)),
     Pair::EqSet(a, _) => { let mut r = a.clone(); r.reverse(); judge_equals(&hset(a), &hset(&r)) }
+    Pair::Inf(c) => { let v: Result<(), std::convert::Infallible> = Ok(()); judge_result(*c, &v, &v) }
     Pair::Misc(c, sel, a, _) => misc(*c, *sel, *a, *a),
     Pair::TerseP(c, a, _) => judge_result(*c, a, a),
     Pair::LooseP(c, a, _) => judge_result(*c, a, a),
@@ -222,6 +226,7 @@ pub fn strategy() -> impl Strategy<Value=Pair> {
   fn tiny() -> impl Strategy<Value=String> { prop_oneof![Just(String::new()), Just("a".to_string()), Just("b".to_string())] }
   prop_oneof![
     3 => (ck(), 0u8..8, 0u8..6, 0u8..6).prop_map(|(c, sel, a, b)| Pair::Misc(c, sel, a, b)),
+    1 => ck().prop_map(Pair::Inf),
     1 => (0u8..7, 0u8..7).prop_map(|(a, b)| Pair::EqPath(a, b)),
     2 => (ck(), res(0u8..7, 0u8..7), res(0u8..7, 0u8..7)).prop_map(|(c, a, b)| Pair::PathP(c, a, b)),
     1 => (proptest::collection::vec(0u8..4, 0..4), proptest::collection::vec(0u8..4, 0..4)).prop_map(|(a, b)| Pair::EqSet(a, b)),
@@ -252,7 +257,7 @@ pub fn strategy() -> impl Strategy<Value=Pair> {
 /// Small fixed batteries of pairs per type family; `battery(first)` runs them all in one fresh process, starting with family
 /// `first` - state that a checker keeps per process (and that depends on which type or checker came first) shows up as a
 /// battery that fails for one starting point only.
-pub const N_FAMILIES: usize = 8;
+pub const N_FAMILIES: usize = 9;
 fn family(i: usize) -> Vec<Pair> {
   let mut v = vec![];
   for c in CKS {
@@ -264,7 +269,8 @@ fn family(i: usize) -> Vec<Pair> {
       4 => { for a in [Ok("a".to_string()), Err("a".to_string()), Err("b".to_string())] { for b in [Ok("a".to_string()), Ok("b".to_string()), Err("a".to_string())] { v.push(Pair::Text(c, a.clone(), b.clone())); } } }
       5 => { for a in [Ok(Unit0), Err("a".to_string())] { for b in [Ok(Unit0), Err("a".to_string()), Err("b".to_string())] { v.push(Pair::ZNamedOk(c, a.clone(), b.clone())); } } }
       6 => { for a in [Ok(Var::A(0)), Ok(Var::B(0)), Err(Var::A(1))] { for b in [Ok(Var::B(0)), Ok(Var::A(1)), Err(Var::B(1)), Err(Var::A(0))] { v.push(Pair::VarP(c, a, b)); } } }
-      _ => { for a in 0u8..4 { for b in 0u8..4 { v.push(Pair::Misc(c, a * 2 + 1, a, b)); } } }
+      7 => { for a in 0u8..4 { for b in 0u8..4 { v.push(Pair::Misc(c, a * 2 + 1, a, b)); } } }
+      _ => { v.push(Pair::Inf(c)); }
     }
   }
   v
@@ -299,7 +305,7 @@ fn run_battery_process(first: usize) -> CheckResult {
 }
 
 pub fn run(tier: Tier, seed: u64) -> i32 {
-  let rule = "all five built-in checkers through both the OutputChecker methods and the object-safe OutputCheckerObj proxy: (1) exhaustive over all 8x8 pairs of Result<u8 in 0..4, u8 in 0..4> x 5 checkers; (1b) exhaustive over Result<u8,()>, Result<(),u8>, Result<(),()> (zero-sized payload types); (2) proptest-generated pairs of Result<String,String>, Result<(u8,String),Vec<u8>>, Result<String,UnitStruct>, Result<UnitStruct,String>, Result<[u8;24],u64>, payload types whose Debug text is terser / finer than their Eq, enums (and Cow<str>) equal across variants, PathBuf spellings, HashSet, i128, nested options, Rc, empty arrays, &'static str, char, wide tuples, and Option/tuple/Vec values for EqualsChecker; (3) eight fixed batteries over all type families, each run in a fresh process starting with a different family (state kept per process must not depend on which type was checked first); oracle: check(o2, stamp(o1)) is consistent iff the documented relation holds, plus reflexivity; non-trivial = pair on which the relation differs from plain equality (or an unequal pair for EqualsChecker); distinct by value hash";
+  let rule = "all five built-in checkers through both the OutputChecker methods and the object-safe OutputCheckerObj proxy: (1) exhaustive over all 8x8 pairs of Result<u8 in 0..4, u8 in 0..4> x 5 checkers; (1b) exhaustive over Result<u8,()>, Result<(),u8>, Result<(),()> (zero-sized payload types); (2) proptest-generated pairs of Result<String,String>, Result<(u8,String),Vec<u8>>, Result<String,UnitStruct>, Result<UnitStruct,String>, Result<[u8;24],u64>, payload types whose Debug text is terser / finer than their Eq, enums (and Cow<str>) equal across variants, PathBuf spellings, HashSet, i128, nested options, Rc, empty arrays, &'static str, char, wide tuples, and Option/tuple/Vec values for EqualsChecker; (3) nine fixed batteries over all type families, each run in a fresh process starting with a different family (state kept per process must not depend on which type was checked first); oracle: check(o2, stamp(o1)) is consistent iff the documented relation holds, plus reflexivity; non-trivial = pair on which the relation differs from plain equality (or an unequal pair for EqualsChecker); distinct by value hash";
   let mut report = Report::new("C12", tier, seed, "exploration", rule);
   let known = Known::load("C12");
   super::prologue(&mut report, &known);
